@@ -427,6 +427,11 @@ def run_chunk(ctx, n_programs, mode='plain', p_cmd=0.3):
             ctx.disagree('core', {'yaml': r['yaml'], 'events': r['events']}, mo, 'model refused the input')
             continue
         for k, (m, real) in enumerate(zip(mo, r['real'])):
+            if not m.get('stepAgrees', True):
+                # command-free definition: the task-only core `step` must equal `stepX` up to the order of rows
+                ctx.disagree('core', {'yaml': r['yaml'], 'step': k, 'event': r['events'][k]},
+                             'Mistral.Engine.step differs from stepX on a definition without engine commands', m)
+                break
             mm = model_obs(m)
             if mm != real:
                 diff = {key: [mm[key], real[key]] for key in mm if mm[key] != real[key]}
